@@ -9,7 +9,10 @@ import pandas as pd
 import twosigma.memento as m
 from twosigma.memento.exception import NonMemoizedException
 from twosigma.memento.partition import InMemoryPartition
+from twosigma.memento.result import KeyOverrideResult
 from twosigma.memento.storage_filesystem import OnDiskPartition
+
+from . import c02fx_b
 
 UTC = datetime.timezone.utc
 
@@ -76,6 +79,7 @@ EXCS = {
     "exc-nested": lambda: (_ for _ in ()).throw(Outer.Nested("nested one")),
     "exc-local": _raise_local,
     "exc-keyerror": lambda: (_ for _ in ()).throw(KeyError("k")),
+    "exc-samename": lambda: (_ for _ in ()).throw(c02fx_b.Custom1("custom one of the other module")),
     "exc-transient": lambda: (_ for _ in ()).throw(Transient("try later")),
 }
 
@@ -108,3 +112,10 @@ def twin(name):
     """Another function producing byte-identical results (shares the stored object)."""
     sys.audit("vf.body", "twin", name)
     return build(name)
+
+
+@m.memento_function(cluster="vfc", version="1")
+def kov(name):
+    """Same values, stored under ONE key override shared by all calls of this function."""
+    sys.audit("vf.body", "kov", name)
+    return KeyOverrideResult(build(name), "ko/shared")
